@@ -167,7 +167,9 @@ theorem film_grain_interferes : Interferes "random_register" (1234 : Nat) 5678 :
 theorem resize_seed_interferes : Interferes "seed" (34567 : Nat) 22222 := noninterference_fails_with _ _ _ (by decide)
 /-- `group_affinity`: CPU set of the instance that called svt_av1_enc_init with unpin = 0 last. -/
 theorem group_affinity_interferes : Interferes "group_affinity" (3 : Nat) 255 := noninterference_fails_with _ _ _ (by decide)
-/-- `enc_dec_ports` / `rate_control_ports`: process counts of the instance whose svt_av1_enc_init wrote them last. -/
+/-- `enc_dec_ports` / `rate_control_ports`: process counts of the instance whose svt_av1_enc_init wrote them last.
+    REAL CODE: two concurrent svt_av1_enc_init calls with different thread counts -> SIGSEGV in svt_get_empty_object
+    (finding C17-port-tables-concurrent-enc_init; a race, ~60% of the runs). -/
 theorem port_tables_interfere : Interferes "enc_dec_ports" (1 : Nat) 4 := noninterference_fails_with _ _ _ (by decide)
 
 /-! ### the generated table -/
